@@ -7,7 +7,7 @@ import os
 import subprocess
 import sys
 
-VERIF = "/verif"
+VERIF = __import__("os").path.dirname(__import__("os").path.dirname(__import__("os").path.abspath(__file__)))
 
 
 def one(patch):
@@ -21,7 +21,12 @@ def one(patch):
         if r.returncode:
             return name, "apply-failed", r.stderr[-200:]
         env = dict(os.environ, VERIF_REPO=wt)
-        p = subprocess.run(["python3-vt", "-m", "vf.prove"], cwd=VERIF, env=env, capture_output=True, text=True)
+        # the contracts of the modules the patch touches (all static obligations are always run)
+        import re
+
+        mods = sorted({m.group(1)[:-3].split("/")[-1] for m in re.finditer(r"^\+\+\+ b/(ascmhl/\S+\.py)", open(patch).read(), re.M)})
+        only = ["ascmhl." + m + "." for m in mods] + ["ascmhl.cli." + m + "." for m in mods]
+        p = subprocess.run(["python3-vt", "-m", "vf.prove", "--only"] + only, cwd=VERIF, env=env, capture_output=True, text=True)
         s = subprocess.run(["python3-vt", "-m", "vf.statics"], cwd=VERIF, env=env, capture_output=True, text=True)
         bad = [l for l in (p.stdout + s.stdout).splitlines() if l.lstrip().startswith(("refuted", "unknown", "ERROR", "UNSUPPORTED", "Traceback")) or "VACUOUS" in l]
         tot = [l for l in p.stdout.splitlines() if l.startswith("TOTAL")]
